@@ -257,11 +257,9 @@ impl<'a> TimeZoneRef<'a> {
                         } else if local_leap_time >= transition_end
                             && local_leap_time <= transition_start
                         {
-                            if prev.ut_offset < after_ltt.ut_offset {
-                                return Ok(crate::MappedLocalTime::Ambiguous(prev, after_ltt));
-                            } else {
-                                return Ok(crate::MappedLocalTime::Ambiguous(after_ltt, prev));
-                            }
+                            // `(earliest, latest)`: the offset in force before the transition is
+                            // the larger one and thus denotes the earlier instant.
+                            return Ok(crate::MappedLocalTime::Ambiguous(prev, after_ltt));
                         }
                     }
                     Ordering::Equal => {
@@ -269,11 +267,9 @@ impl<'a> TimeZoneRef<'a> {
                         if local_leap_time < transition_start {
                             return Ok(crate::MappedLocalTime::Single(prev));
                         } else if local_leap_time == transition_end {
-                            if prev.ut_offset < after_ltt.ut_offset {
-                                return Ok(crate::MappedLocalTime::Ambiguous(prev, after_ltt));
-                            } else {
-                                return Ok(crate::MappedLocalTime::Ambiguous(after_ltt, prev));
-                            }
+                            // The offset does not change (only the name or DST flag does): this
+                            // local time occurs exactly once, at the transition itself.
+                            return Ok(crate::MappedLocalTime::Single(after_ltt));
                         }
                     }
                     Ordering::Less => {
